@@ -92,6 +92,25 @@ def run(chk):
         ok3 &= found
     chk.ob("R02.3", "verifies: True only when r == x(u1*G + u2*Q) mod n [%d state(s)]" % n_true, ok3 and n_true > 0, loc=q, key="C02|R02.3",
            detail="a True result is not tied to the comparison of r with x(R) mod n")
+    # R02.6 strict decoders (the decoder clause of this property; same rules as C12 R12.1/R12.2)
+    chk.rule("R02.6", "the three library signature decoders are strict (exact lengths / item sizes, no trailing bytes, r and s from the right places)")
+    from . import c12
+
+    class Proxy(object):
+        def __init__(self, c):
+            self.c = c
+            self.tier = c.tier
+            self.configs = []
+
+        def rule(self, *a):
+            pass
+
+        def floor(self, rule, what, n, m):
+            self.c.floor("R02.6", what, n, m)
+
+        def ob(self, rule, desc, ok, loc=None, key=None, detail=None, nontrivial=True, witness=None):
+            return self.c.ob("R02.6", desc, ok, loc=loc, key=(key or "").replace("C12|", "C02|R02.6|"), detail=detail, nontrivial=nontrivial, witness=witness)
+    c12.decoders(Proxy(chk))
     # R02.4 / R02.5 over the 12 verify contexts
     specs = [s for s in c10.entries() if s["kind"] == "verify"]
     for s in specs:
